@@ -3,6 +3,7 @@ package main
 import (
 	"fmt"
 	"go/token"
+	"go/types"
 	"strings"
 
 	"golang.org/x/tools/go/ssa"
@@ -64,6 +65,36 @@ func errPropagates(c *Ctx, rule, key string, fn *ssa.Function, call *ssa.Call, i
 					ev := Resolve(x.Results[len(x.Results)-1], st)
 					if cst, ok := EvalConst(ev, st); ok && cst.Value == nil {
 						good, why = false, "after "+CalleeName(call.Common())+" failed the function returns a nil error at "+p.InstrPos(x)
+					} else if _, isErr := ev.Type().Underlying().(*types.Interface); isErr {
+						derives := false
+						for _, l := range p.LeavesNoFields(ev, func(v ssa.Value) FlowAct {
+							if v == ssa.Value(call) {
+								return Stop
+							}
+							if cc, _, isRes := CallResult(v); isRes {
+								n := CalleeName(cc.Common())
+								if n == "fmt.Errorf" || strings.HasPrefix(n, "errors.New") || strings.HasPrefix(n, "errors.Errorf") || strings.HasPrefix(n, "errors.Wrap") {
+									return Stop
+								}
+							}
+							return Descend
+						}) {
+							if l == ssa.Value(call) {
+								derives = true
+							}
+							if cc, _, isRes := CallResult(l); isRes && cc == call {
+								derives = true
+							}
+							if cc, _, isRes := CallResult(l); isRes {
+								n := CalleeName(cc.Common())
+								if n == "fmt.Errorf" || strings.HasPrefix(n, "errors.New") || strings.HasPrefix(n, "errors.Errorf") || strings.HasPrefix(n, "errors.Wrap") {
+									derives = true
+								}
+							}
+						}
+						if !derives {
+							good, why = false, "after "+CalleeName(call.Common())+" failed the function goes on and returns the result of a later step at "+p.InstrPos(x)+", so the failure is lost"
+						}
 					}
 				}
 				return false
